@@ -39,8 +39,13 @@ use std::{
     fmt::Display,
     hash::Hash,
     ops::Deref,
-    sync::{Arc, RwLock, Weak},
+    sync::{Arc, Weak},
 };
+
+#[cfg(not(gdsl_verif))]
+use std::sync::RwLock;
+#[cfg(gdsl_verif)]
+use crate::verif::RwLock;
 
 use self::{
     adjacent::*,
